@@ -434,6 +434,32 @@ pub fn check_proxy(run: &mut Run) {
                 }
             }
 
+            // ---------------- C14 under a cut answer: a truncated body is never presented as a complete response
+            if on("C14") && relayed {
+                if let (Some(HostFault::CutResponse(_)), Some((place, _)), Some(m)) = (&host_fault, h.cut_places.get(&rq.tok), res.and_then(|r| r.resp.as_ref())) {
+                    let spec = h.resp_specs.get(&rq.tok);
+                    let close_delimited = spec.map(|s| s.close_delimited).unwrap_or(false);
+                    let spec_status = spec.map(|s| s.status).unwrap_or(200);
+                    let intended: Option<Vec<u8>> = match spec {
+                        Some(s) => Some(s.body.clone()),
+                        None => recvs.first().map(|rv| format!("echo {} {} tok={}", rv.msg.method(), rv.msg.target(), rq.tok).into_bytes()),
+                    };
+                    let bodyless = rq.method == "HEAD" || spec_status == 204 || spec_status == 304;
+                    if *place == "body" {
+                        bump!("fault.answer_cut_mid_body");
+                    }
+                    // the client parsed a complete response carrying the host's status although the host's body was cut
+                    if *place == "body" && !close_delimited && !bodyless && m.status() == spec_status && !m.until_close {
+                        if let Some(want) = intended {
+                            bump!("c14.cut_in_body_complete_at_client");
+                            if m.body != want {
+                                viol.push(("C14".into(), "truncated response body presented to the client as a complete response".into(), format!("tok={} host body {} bytes, cut mid-body; client parsed a complete {} response with {} body bytes", rq.tok, want.len(), m.status(), m.body.len())));
+                            }
+                        }
+                    }
+                }
+            }
+
             // ---------------- C14 client side transparency
             if on("C14") && relayed && !faults_flowing {
                 if let Some(HostFault::Status(s)) = &host_fault {
